@@ -553,6 +553,7 @@ func (c *Chunker) buildSections(doc *model.Document) []*Section {
 				}
 				sections = append(sections, preambleSection)
 				preambleContent = nil
+				preambleStartPage = 0
 			}
 
 			// Create new section for this heading
@@ -606,6 +607,18 @@ func (c *Chunker) buildSections(doc *model.Document) []*Section {
 						BBox: heading.BBox,
 					})
 					currentSection.PageEnd = pageIndex
+				} else {
+					// No section is open yet: the heading is content before the first section
+					preambleContent = append(preambleContent, ContentElement{
+						Type: model.ElementTypeHeading,
+						Text: heading.Text,
+						Page: pageIndex,
+						BBox: heading.BBox,
+					})
+					if preambleStartPage == 0 {
+						preambleStartPage = pageIndex
+					}
+					preambleEndPage = pageIndex
 				}
 			}
 		}
@@ -656,8 +669,8 @@ func (c *Chunker) buildSections(doc *model.Document) []*Section {
 		}
 	}
 
-	// Handle any remaining preamble content
-	if len(preambleContent) > 0 && len(sections) == 0 {
+	// Handle any remaining preamble content (it only accumulates while no section is open)
+	if len(preambleContent) > 0 {
 		preambleSection := &Section{
 			Title:     "",
 			Path:      nil,
